@@ -11,6 +11,8 @@ CRATES["wmo"] = {
     # association list with the same new/insert/get contract (wmo/common.rs VMap); parse_* bodies are untouched.  If these
     # anchors disappear the scratch copy no longer compiles and the check exits 2.
     "rewrite": [
+        # visibility only: lets the parser-side harnesses call the private chunk writers directly (small buffers)
+        ("src/writer.rs", r"^    fn write_(?!u8|u16_le|u32_le|i16_le|i32_le|f32_le)", "    pub(crate) fn write_"),
         ("src/parser.rs", r"HashMap<ChunkId, Chunk>", "ChunkTable"),
         ("src/parser.rs", r"let mut chunks = HashMap::new\(\);", "let mut chunks = ChunkTable::new();"),
         ("src/parser.rs", r"^use std::collections::HashMap;$",
@@ -24,7 +26,7 @@ _WC = "verif_kani_converter"
 _WA = "verif_kani_discovery"
 H("C15", "wmo", _WW, "quick", "probe", [
     "c15a_momt_framing_1", "c15a_momt_framing_2", "c15a_momt_framing_witness",
-    "c15a_mogi_framing_1", "c15a_mogi_framing_2", "c15a_mopr_framing", "c15a_portals_framing", "c15a_visible_lists_framing",
+    "c15a_mogi_framing_1", "c15a_mogi_framing_2", "c15a_mopr_framing", "c15a_portals_framing", "c15a_portal_vertex_ranges", "c15c_doodad_name_table", "c15b_skybox_flag_iff_chunk", "c15d_group_legacy_parser_witness", "c15a_visible_lists_framing",
     "c15a_molt_framing_and_entry", "c15a_mods_framing_and_entry", "c15a_doodad_defs_framing", "c15c_motx_mogn_mosb_framing",
     "c15a_group_vectors_framing", "c15a_group_scalars_framing", "c15a_moba_framing_and_entry", "c15a_mobn_framing",
     "c15b_root_counts_and_tiling", "c15b_root_tiling_classic", "c15b_root_empty_all_versions", "c15d_group_backpatch", "c15d_group_backpatch_empty",
@@ -36,10 +38,11 @@ H("C15", "wmo", _WP, "quick", "probe", [
     "c15p_materials_roundtrip", "c15p_header_roundtrip", "c15p_lights_roundtrip", "c15p_portal_refs_roundtrip", "c15p_portals_roundtrip",
     "c15p_visible_lists_roundtrip", "c15p_doodad_defs_roundtrip", "c15p_doodad_name_offset_witness", "c15p_doodad_sets_roundtrip",
     "c15p_group_info_roundtrip_1", "c15p_group_names_witness", "c15p_skybox_witness", "c15p_parse_root_concrete", "c15p_root_bbox_witness",
+    "c15p_portals_roundtrip_2",
 ], ["parser::WmoParser::*"], "probe", "probe", timeout=900)
 H("C15", "wmo", _WP, "thorough", "probe", ["c15p_textures_roundtrip"], ["parser::WmoParser::*"], "probe", "probe", timeout=1500)
 H("C15", "wmo", _WP, "quick", "canary", ["c15_parser_canary"], ["writer::WmoWriter::write_root"], "vacuity twin", "-", expect="canary", timeout=600)
 H("C15", "wmo", _WC, "quick", "probe", ["c15e_convert_root_preserves_content", "c15e_convert_group_preserves_content"], ["converter::*"], "probe", "probe", timeout=600)
 H("C15", "wmo", _WC, "quick", "canary", ["c15_converter_canary"], ["converter::WmoConverter::convert_root"], "vacuity twin", "-", expect="canary", timeout=600)
-H("C15", "wmo", _WA, "quick", "probe", ["c15r_root_light_via_root_parser", "c15r_root_records_via_root_parser", "c15r_root_mohd_size_witness", "c15r_group_via_parse_wmo_witness"], ["api::parse_wmo"], "probe", "probe", timeout=1200)
+H("C15", "wmo", _WA, "quick", "probe", ["c15r_header_via_root_parser", "c15r_light_via_root_parser", "c15r_records_via_root_parser", "c15r_group_info_via_root_parser", "c15r_root_mohd_size_witness", "c15r_group_via_parse_wmo_witness"], ["api::parse_wmo"], "probe", "probe", timeout=1200)
 H("C15", "wmo", _WA, "quick", "canary", ["c15_discovery_canary"], ["root_parser::parse_root_file"], "vacuity twin", "-", expect="canary", timeout=600)
